@@ -131,11 +131,16 @@ def run_corr(ctx, exe, model, harness_args, what):
     ctx.notes["correspondence"] = {
         "what": what, "cases": len(lines), "mismatches": len(mism), "distinct_cases": distinct,
         "accepted_exact": cls["exact"], "accepted_inexact": cls["inexact"], "rejected_by_both": cls["rej"],
+        "whole_files": {"cases": sum(1 for l in lines if l.startswith("F\t")), "accepted_exact": cls.get("file-exact", 0),
+                        "accepted_inexact": cls.get("file-inexact", 0), "rejected_by_both": cls.get("file-rej", 0),
+                        "outside_model_reaches_ParseReadSenc": cls.get("outside", 0)},
         "harness_stats": stats[0] if stats else "",
     }
     ctx.cov["samples"] += [l[:300] for l in lines[10:12]] + [l[:300] for l in lines[-2:]]
-    ctx.log("correspondence: %d cases (%d distinct), %d mismatches; model says exact=%d inexact=%d rejected=%d" % (
-        len(lines), distinct, len(mism), cls["exact"], cls["inexact"], cls["rej"]))
+    ctx.log("correspondence: %d cases (%d distinct), %d mismatches; model says exact=%d inexact=%d rejected=%d; whole files: "
+            "exact=%d inexact=%d rejected=%d outside=%d" % (
+        len(lines), distinct, len(mism), cls["exact"], cls["inexact"], cls["rej"], cls.get("file-exact", 0),
+        cls.get("file-inexact", 0), cls.get("file-rej", 0), cls.get("outside", 0)))
     return lines, mism
 
 
@@ -256,8 +261,11 @@ def run(ctx):
     ctx.notes["modelled_container_types"] = conts
     pr = ctx.proofs("c01", "C01Theorems.v")
     n = ctx.n(6000, 200000)
-    lines, mism = run_corr(ctx, exe, model, ["-seed", str(ctx.seed), "-n", str(n), "-kinds", ",".join(leaves + conts)],
-                           "DecodeBoxSR + Size + Encode + EncodeSW vs decode/size_box/encode_w/encode_sw of the model")
+    lines, mism = run_corr(ctx, exe, model, ["-seed", str(ctx.seed), "-n", str(n), "-nfile", str(ctx.n(700, 30000)),
+                                             "-kinds", ",".join(leaves + conts)],
+                           "DecodeBoxSR + Size + Encode + EncodeSW vs decode/size_box/encode_w/encode_sw of the model; whole files: "
+                           "DecodeFileSR + IsFragmented + File.Encode + File.EncodeSW (box-tree mode) vs decode_file_sr/file_frag/"
+                           "file_encode_w/file_encode_sw")
     ns = ctx.n(4000, 150000)
     fails = run_search(ctx, exe, ["-seed", str(ctx.seed), "-n", str(ns), "-dontcare", DONTCARE,
                                   "-kinds", ",".join(leaves + conts)], "c01", model=model)
